@@ -153,6 +153,9 @@ func runC11(p *Prog, r *Report) {
 	if want("C11.10") {
 		ruleTokenContracts(p, r, "C11.10", 12)
 	}
+	if want("C11.13") {
+		ruleMemInsertSeq(p, r, "C11.13")
+	}
 	if want("C11.12") {
 		ruleFileNumRecycling(p, r, "C11.12")
 	}
